@@ -698,6 +698,25 @@ def fam_convert(vt, cfg):
             if n == 1 and n2 != 1:
                 continue
             conv("bit_cast", "avel::bit_cast<avel::%s>(a)" % t, t, ident, optional=True)
+    # bit_cast between mask types of identical representation (same primitive size): every byte preserved,
+    # i.e. the identity on the primitive - also when the target has fewer lanes than the source has set bits
+    mbytes = lambda c: c.args["m"]
+    seen_t = set()
+    for k2 in "uif":
+        for eb2 in (8, 16, 32, 64):
+            if k2 == "f" and eb2 < 32:
+                continue
+            cands = []
+            if (n * eb) % eb2 == 0:
+                cands.append(n * eb // eb2)                 # same vector size (lane masks, and k-masks of equal width)
+            if n <= 8:
+                cands += [x for x in (1, 2, 4, 8)]            # k-masks held in one byte
+            for n2 in cands:
+                t = _tname(k2, eb2, n2)
+                if t == vt.name or n2 > 64 or n2 < 1 or t in seen_t or (n == 1) != (n2 == 1):
+                    continue
+                seen_t.add(t)
+                conv("mbit_cast", "avel::bit_cast<avel::%s>(m)" % t.replace("vec", "mask"), t, mbytes, Mm, True, optional=True)
     return I
 
 
@@ -951,6 +970,55 @@ def div_env_ok(vt):
     return ok
 
 
+def _div_points(eb, signed):
+    """paired (n, d) lane values for division-like rules: n = q*d + r around every quotient step for a
+    spread of divisors (small, 2^k +- 1, mid-range odd / even patterns, large) and quotients - a wrong
+    quotient digit, a lost carry in a multiply-shift scheme or an off-by-one fix-up shows at such steps,
+    not at the operand boundaries"""
+    M = (1 << eb) - 1
+    ds = [3, 5, 7, 10, 11, 13, 25, 100, 127, 129, 255, 257, 641, 1000, 6700417 & M, 0x3FFF & M, 0x12345 & M, 0xDEADBEEF & M,
+          (1 << (eb // 2)) - 1, (1 << (eb // 2)) + 1, (1 << (eb // 2)) + 3, 3 << (eb // 2 - 1), (M // 3), (M // 3) + 1, (M // 5) * 2 + 1,
+          (1 << (eb - 2)) - 3, (1 << (eb - 2)) + 5, (1 << (eb - 1)) - 7]
+    out = []
+    seen = set()
+    for d in ds:
+        d &= M
+        if d < 2:
+            continue
+        lim = ((1 << (eb - 1)) - 1) if signed else M
+        qmax = lim // d
+        qs = sorted({1, 2, 3, 7, 10, 100, 255, 256, 257, 65535, 65536, 65537, 0x12345, qmax // 3, qmax // 2, qmax - 1, qmax})
+        for q in qs:
+            if q < 1 or q > qmax:
+                continue
+            for r in (0, d - 1, 1, d // 2):
+                n = q * d + r
+                if n > lim or (n, d) in seen:
+                    continue
+                seen.add((n, d))
+                out.append((n, d))
+                if signed:
+                    out.append(((-n) & M, d))
+                    out.append((n, (-d) & M))
+                    out.append(((-n) & M, (-d) & M))
+    return out
+
+
+def with_div_points(judge, nname="a", dname="b", uniform=False):
+    def j(ctx, inst, S):
+        import lanecheck
+        import runner
+        old = lanecheck.EXTRA_POINTS[0]
+        lanecheck.EXTRA_POINTS[0] = [{nname: n, dname: d} for n, d in _div_points(ctx.vt.eb, ctx.vt.signed)]
+        lanecheck.EXTRA_UNIFORM[0] = uniform
+        try:
+            return (judge or runner.judge_default)(ctx, inst, S)
+        finally:
+            lanecheck.EXTRA_POINTS[0] = old
+            lanecheck.EXTRA_UNIFORM[0] = False
+    return j
+
+
 def judge_div_value(ctx, inst, S):
     """div / % on vectors: every lane whose own divisor is valid must be exact *whatever the other lanes
     hold* (a zero divisor elsewhere must not change it).  First the plain comparison on inputs whose lanes
@@ -977,6 +1045,28 @@ def judge_div_value(ctx, inst, S):
                                                 T.icmp("eq", lb[i], T.const(eb, (1 << eb) - 1)))))
         am.append(T.select(valid, T.slice_(S.ret, i * eb, eb), T.const(eb, 0)))
         em.append(T.select(valid, T.slice_(expected, i * eb, eb), T.const(eb, 0)))
+    # complete comparison of the masked forms (ROBDDs): equal diagrams mean that every lane with a valid divisor
+    # is exact whatever the other lanes hold - including zero divisors and the cross-lane early exits
+    if eb <= 16:
+        try:
+            bv, binfo = lanecheck.bdd_lanes(T.concat(am), T.concat(em), ctx.argspecs, ctx.names, eb)
+        except T.TooBig:
+            bv, binfo = None, "budget"
+        if bv == "HOLDS":
+            return HOLDS, ("identical reduced ordered BDDs of the quotient / remainder lanes and of truncating division, both masked "
+                           "to the lanes whose own divisor is valid, over all argument bits (%s)" % binfo), rule, None
+        if bv == "REFUTED":
+            return REFUTED, "a lane with a valid divisor differs from truncating division: " + (detail or "")[:300], rule, binfo
+        detail = "%s [BDD: %s]" % ((detail or "")[:400], binfo)
+        # the same comparison with the other lanes abstracted into free variables (sound for HOLDS only)
+        try:
+            bv2, binfo2 = lanecheck.bdd_lanes_abstract(T.concat(am), T.concat(em), ctx.argspecs, eb)
+        except T.TooBig:
+            bv2, binfo2 = None, "budget"
+        if bv2 == "HOLDS":
+            return HOLDS, ("every lane with a valid divisor equals truncating division for all values of its own operands and "
+                           "every value of the conditions computed from the other lanes (ROBDD equality, %s)" % binfo2), rule, None
+        detail = "%s [BDD/abstracted: %s]" % (detail[:500], binfo2)
     w = lanecheck.find_witness(T.concat(am), T.concat(em), ctx.argspecs, ctx.names, eb)
     if w is not None:
         w["note"] = "lanes whose own divisor is zero (or MIN / -1) are masked out on both sides; the differing lane has a valid divisor"
@@ -1022,7 +1112,7 @@ def fam_div(vt, cfg):
                              ("quo_assign", "a", eq, "a /= b;"), ("rem_assign", "a", er, "a %= b;")):
         i = Inst(nm, VV, "V", body, e, pre=pre)
         i.env_ok = div_env_ok(vt)
-        i.judge = judge_div_value
+        i.judge = with_div_points(judge_div_value)
         # the operator forms are tied to div() by body equality (A-ireq); only div() itself is
         # compared with the closed form
         i.wrapper_only = not nm.startswith("div_")
@@ -1181,6 +1271,7 @@ def fam_vdenom(vt, cfg):
                         ("vd_quo_op", "a / %s{b}" % D, q), ("vd_rem_op", "a %% %s{b}" % D, r)):
         i = Inst(nm, VV, "V", body, lanewise2(lambda c, x, y, o=o: T.op(o, c.vt.eb, x, y)))
         i.env_ok = denom_env_ok(vt, "b")
+        i.judge = with_div_points(None)
         i.clause = "value"
         i.budget_s = (4 if TIER == "quick" else 30) if vt.eb == 8 else (1.0 if TIER == "quick" else 6)
         i.wrapper_only = nm.endswith("_op")     # tied to div() by body equality
@@ -1199,6 +1290,7 @@ def fam_vdenom(vt, cfg):
         i = Inst(nm, AS, "V", body,
                  lambda c, o=o: c.pack([T.op(o, c.vt.eb, x, c.args["d"]) for x in c.lanes("a")]))
         i.env_ok = denom_env_ok(vt, "d")
+        i.judge = with_div_points(None, "a", "d", uniform=True)
         i.clause = "broadcast"
         i.budget_s = (4 if TIER == "quick" else 30) if vt.eb == 8 else (1.5 if TIER == "quick" else 6)
         I.append(i)
@@ -1273,6 +1365,7 @@ def fam_sdenom(vt, cfg):
                              ("sd_quo_assign", "a", eq, "a /= %s{b};" % D), ("sd_rem_assign", "a", er, "a %%= %s{b};" % D)):
         i = Inst(nm, SS, "S", body, e, pre=pre)
         i.env_ok = denom_env_ok(vt, "b")
+        i.judge = with_div_points(None)
         i.clause = "value"
         i.budget_s = 20 if vt.eb == 8 else (3 if TIER == "quick" else 10)
         i.budget_nodes = 600000
